@@ -313,13 +313,30 @@ def main(ns):
                             'seeded': bool(ent.get('seeded'))})
         finally:
             shutil.rmtree(base, ignore_errors=True)
-    rep = {'killed': killed, 'missed': missed, 'stale': stale, 'wall_s': round(time.time() - t0, 1),
-           'repo_hash': core.repo_hash(), 'results': results}
     d = os.path.join(core.VERIF_DIR, 'selftest')
     os.makedirs(d, exist_ok=True)
-    if not only:
-        with open(os.path.join(d, 'mutants.json'), 'w') as f:
-            json.dump(rep, f, indent=1, sort_keys=True)
+    path = os.path.join(d, 'mutants.json')
+    for r in results:
+        r['repo_hash'] = core.repo_hash()
+        r['verif_commit'] = _verif_commit()
+    if only and os.path.exists(path):
+        # a partial run replaces the entries it re-ran and keeps the others (each entry says which tree and
+        # which state of /verif it was obtained with)
+        with open(path) as f:
+            prev = json.load(f)
+        done = dict((r['id'], r) for r in results)
+        order = [e['id'] for e in CATALOGUE + seeded_entries()]
+        merged = dict((r['id'], r) for r in prev.get('results', []))
+        merged.update(done)
+        allres = [merged[i] for i in order if i in merged]
+    else:
+        allres = results
+    rep = {'killed': sum(1 for r in allres if r['status'] == 'killed'),
+           'missed': sum(1 for r in allres if r['status'] == 'missed'),
+           'stale': sum(1 for r in allres if r['status'] == 'stale'),
+           'wall_s': round(time.time() - t0, 1), 'repo_hash': core.repo_hash(), 'results': allres}
+    with open(path, 'w') as f:
+        json.dump(rep, f, indent=1, sort_keys=True)
     print('mutants: %d killed, %d missed, %d stale (%.0fs)' % (killed, missed, stale, time.time() - t0))
     bad_replay = [r['id'] for r in results if r.get('status') == 'killed' and r.get('replay_reproduces') is False]
     if bad_replay:
@@ -329,6 +346,14 @@ def main(ns):
     if unexpected or stale:
         return core.EXIT_VIOLATION if unexpected else core.EXIT_HARNESS
     return core.EXIT_OK
+
+
+def _verif_commit():
+    try:
+        return subprocess.run(['git', '-C', core.VERIF_DIR, 'rev-parse', '--short', 'HEAD'], stdout=subprocess.PIPE,
+                              stderr=subprocess.DEVNULL).stdout.decode().strip()
+    except Exception:
+        return None
 
 
 def _known_missed(mid):
